@@ -86,8 +86,9 @@ def rand_cfg(rng, name, dim, mode_choices=(1, 2, 7, 64, 200, 1000)):
     return cfg
 
 
-def make_srf(cfg, nugget=0.0):
+def make_srf(cfg, nugget=None):
     import gstools as gs
+    nugget = cfg.get("nugget", 0.0) if nugget is None else nugget
     m = make_model(cfg["cls"], cfg["dim"], cfg["var"], cfg["len_scale"], nugget, cfg.get("opt"))
     return gs.SRF(m, generator="VectorField", mean_velocity=cfg["mean_u"], mode_no=cfg["mode_no"], seed=cfg["seed"])
 
@@ -1332,6 +1333,154 @@ def probe_copies(ctx, rng, drv):
         run_ensemble(ctx, cfg2, M, rng.choice(2 ** 31 - 1, size=M, replace=False), xs, history="deepcopy")
 
 
+def probe_upscaling(ctx, rng):
+    """point_volumes (scalar / array / 0) x upscaling {"no_scaling", "coarse_graining"} x nugget {0, > 0}, through SRF.__call__ and
+    SRF.mesh: the field is the field without point_volumes (same seed, same random stream) times sqrt(documented factor):
+    no_scaling = 1 (identity, bitwise); coarse_graining = (l^2 / (l^2 + (V^(1/d)/2)^2))^(d/2) with l = len_scale (1e-12).
+    Array-valued point_volumes are rejected (ValueError) for vector fields by GSTools: recorded, not a violation."""
+    import gstools as gs
+    import meshio
+    for dim in (2, 3):
+        for nug in (0.0, float(rng.uniform(0.2, 1.5))):
+            name = "Gaussian" if rng.random() < 0.5 else CLASSES[int(rng.integers(len(CLASSES)))]
+            cfg = dict(rand_cfg(rng, name, dim, mode_choices=(2, 7, 33)), nugget=nug)
+            n = int(rng.choice([1, dim, 6]))
+            pos = np.ascontiguousarray(rng.uniform(-5, 5, size=(dim, n)) * cfg["len_scale"])
+            vols = [("scalar", float(rng.uniform(0.1, 4.0)) * cfg["len_scale"] ** dim), ("array", rng.uniform(0.1, 4.0, size=n) * cfg["len_scale"] ** dim),
+                    ("numpy scalar", np.float64(0.7) * cfg["len_scale"] ** dim), ("zero", 0.0), ("array with zeros", np.zeros(n))]
+            for ups in ("no_scaling", "coarse_graining"):
+                for vname, pv in vols:
+                    for via in ("call", "mesh"):
+                        case = dict(cfg, upscaling=ups, point_volumes=vname, pv=np.asarray(pv, dtype=float).ravel().tolist(), via=via, pos=hexarr(pos))
+                        try:
+                            with warnings.catch_warnings():
+                                warnings.simplefilter("ignore")
+                                def build():
+                                    m = make_model(name, dim, cfg["var"], cfg["len_scale"], nug, cfg["opt"])
+                                    return gs.SRF(m, generator="VectorField", upscaling=ups, mean_velocity=cfg["mean_u"], mode_no=cfg["mode_no"], seed=cfg["seed"])
+                                plain = np.asarray(build()(tuple(pos), mesh_type="unstructured"))
+                                srf = build()
+                                if via == "call":
+                                    got = np.asarray(srf(tuple(pos), point_volumes=pv, mesh_type="unstructured"))
+                                else:
+                                    mesh = meshio.Mesh(points=np.ascontiguousarray(pos.T), cells=[("vertex", np.arange(n).reshape(-1, 1))])
+                                    srf.mesh(mesh, points="points", point_volumes=pv)
+                                    got = np.asarray(mesh.point_data["field"]).T
+                                ell = float(srf.model.len_scale)
+                        except Exception as e:
+                            if isinstance(e, ValueError) and vname.startswith("array"):
+                                ctx.count(None, hist=dict(stage="upscaling", upscaling=ups, point_volumes=vname + " (rejected: ValueError)"))
+                                continue
+                            ctx.violation("probe: upscaling", "unexpected exception %r" % (e,), case, key="upscaling:exception")
+                            continue
+                        pvv = np.broadcast_to(np.asarray(pv, dtype=float), (n,))
+                        if ups == "no_scaling":
+                            fac = np.ones(n)
+                        else:
+                            lam = pvv ** (1.0 / dim)
+                            fac = (ell ** 2 / (ell ** 2 + (lam / 2.0) ** 2)) ** (dim / 2.0)
+                        exp = plain * np.sqrt(fac)[None, :]
+                        ctx.count(("upscaling", ups, vname, nug > 0, via, dim), hist=dict(stage="upscaling", upscaling=ups, point_volumes=vname, nugget=nug > 0, via=via))
+                        ok = got.shape == exp.shape and (C.bit_equal(got, exp) if ups == "no_scaling" else
+                                                         bool((np.abs(got - exp) <= 1e-12 * np.abs(exp) + 1e-300).all()))
+                        if not ok:
+                            ctx.violation("probe: SRF with upscaling=%r, point_volumes=%s, nugget %.3g via %s (%d-D)" % (ups, vname, nug, via, dim),
+                                          "the vector field must be the field without point_volumes times sqrt(documented variance factor) "
+                                          "(no_scaling: unchanged): largest |got/expected - 1| = %.3g; mean flow component got %r, expected %r" % (
+                                              float(np.nanmax(np.abs(got / np.where(exp == 0, 1, exp) - 1))) if got.shape == exp.shape else float("nan"),
+                                              got[0].tolist()[:3], exp[0].tolist()[:3]),
+                                          dict(case, got=hexarr(got), expected=hexarr(exp)), key="upscaling:%s:nugget%s" % (ups, ">0" if nug > 0 else "=0"))
+                            break
+
+
+def model_state(m):
+    """constructor arguments reproducing the present state of a model exactly (var_raw, not var: no division by var_factor)"""
+    kw = dict(dim=m.dim, var_raw=float(m.var_raw), len_scale=float(m.len_scale), nugget=float(m.nugget), anis=[float(a) for a in m.anis],
+              angles=[float(a) for a in m.angles], rescale=float(m.rescale))
+    kw.update({k: float(getattr(m, k)) for k in m.opt_arg})
+    return kw
+
+
+def probe_single_changes(ctx, rng):
+    """ONE model parameter changed in place on an existing SRF / generator — var, nugget (to 0 and to > 0), len_scale, anis, angles,
+    rescale, every optional argument — then evaluated again: bitwise the field of a fresh object built from the present state
+    (update re-seeds, so the nugget stream restarts as for a fresh object); after nugget -> 0 the divergence probe runs on the
+    history object itself."""
+    import gstools as gs
+    from gstools.field.generator import IncomprRandMeth
+    thorough = ctx.tier == "thorough"
+    classes = list(CLASSES) if thorough else ["Gaussian", TPL[int(rng.integers(3))], "Matern", CLASSES[int(rng.integers(len(CLASSES)))]]
+    for name in classes:
+        dim = int(rng.choice([2, 3]))
+        cfg = rand_cfg(rng, name, dim, mode_choices=(2, 7, 33))
+        n = int(rng.choice([1, dim, 5]))
+        pos = np.ascontiguousarray(rng.uniform(-5, 5, size=(dim, n)) * cfg["len_scale"])
+        kw = dict(mean_velocity=cfg["mean_u"], mode_no=cfg["mode_no"], seed=cfg["seed"])
+        for nug0 in (0.0, 0.6):
+            with warnings.catch_warnings():
+                warnings.simplefilter("ignore")
+                m0 = make_model(name, dim, cfg["var"], cfg["len_scale"], nug0, cfg["opt"])
+            params = ["var", "nugget", "len_scale", "anis", "angles", "rescale"] + list(m0.opt_arg)
+
+            def change(m, p):
+                if p == "nugget":
+                    m.nugget = 0.0 if m.nugget > 0 else 0.45
+                elif p == "anis":
+                    m.anis = [0.5] * (dim - 1)
+                elif p == "angles":
+                    m.angles = [float(a) + 0.8 for a in m.angles]
+                elif p in ("var", "len_scale", "rescale"):
+                    setattr(m, p, float(getattr(m, p)) * 1.7)
+                else:
+                    cur = float(getattr(m, p))
+                    for f in (1.3, 0.7, 0.5):
+                        try:
+                            setattr(m, p, cur * f if cur != 0 else 0.4 * float(m.len_scale) * f)
+                            return
+                        except ValueError:
+                            setattr(m, p, cur)
+                    raise ValueError("no admissible new value for %s" % p)
+
+            for p in params:
+                case = dict(cfg, nugget=nug0, changed=p, pos=hexarr(pos))
+                try:
+                    with warnings.catch_warnings():
+                        warnings.simplefilter("ignore")
+                        srf = gs.SRF(make_model(name, dim, cfg["var"], cfg["len_scale"], nug0, cfg["opt"]), generator="VectorField", **kw)
+                        srf(tuple(pos), mesh_type="unstructured")
+                        change(srf.model, p)
+                        case["state"] = {k: (v if not isinstance(v, list) else list(v)) for k, v in model_state(srf.model).items()}
+                        got = np.asarray(srf(tuple(pos), mesh_type="unstructured"))
+                        fresh = np.asarray(gs.SRF(getattr(gs, name)(**model_state(srf.model)), generator="VectorField", **kw)(tuple(pos), mesh_type="unstructured"))
+                        # generator alone: assign a model that differs in this one parameter
+                        g = IncomprRandMeth(make_model(name, dim, cfg["var"], cfg["len_scale"], nug0, cfg["opt"]), **kw)
+                        g(pos)
+                        mB = getattr(gs, name)(**model_state(g.model)); change(mB, p)
+                        g.model = mB
+                        got_g = np.asarray(g(pos))
+                        fresh_g = np.asarray(IncomprRandMeth(getattr(gs, name)(**model_state(mB)), **kw)(pos))
+                except Exception as e:
+                    ctx.violation("probe: single change of %s" % p, "unexpected exception %r" % (e,), case, key="single:exception")
+                    continue
+                ctx.count(("single", name, p, nug0 > 0), hist=dict(stage="single-parameter-history", cls=name, changed=p, nugget_before=nug0 > 0))
+                for what, a, b in (("SRF (model changed in place)", got, fresh), ("generator (model assigned)", got_g, fresh_g)):
+                    if a.shape != b.shape or not C.bit_equal(a, b):
+                        ctx.violation("probe: %s after changing only %s (nugget before: %.2g) vs fresh object" % (what, p, nug0),
+                                      "after changing the single model parameter %s the next field is not the field of the present parameters: "
+                                      "max |diff| %.3g" % (p, float(np.max(np.abs(a - b))) if a.shape == b.shape else float("nan")),
+                                      dict(case, via=what, got=hexarr(a), fresh=hexarr(b)), key="single:%s" % p)
+                        if p == "nugget" and nug0 > 0:
+                            # the field of a model without nugget must be divergence free: probe the history object itself
+                            def fac(s, pos0=pos):
+                                s(tuple(pos0), mesh_type="unstructured")
+                                s.model.nugget = 0.0
+                                return lambda q: s(tuple(np.asarray(q)), mesh_type="unstructured")
+                            x = np.ascontiguousarray(rng.uniform(-10, 10, size=(dim, 4)) * cfg["len_scale"])
+                            run_divergence(ctx, dict(cfg, nugget=nug0, mode_no=max(cfg["mode_no"], 7)), x,
+                                           via=("SRF after evaluating with nugget %.2g and setting model.nugget = 0" % nug0, fac))
+                        break
+
+
 # ----------------------------------------------------------------------------------------------- run
 
 def run(ctx):
@@ -1397,6 +1546,8 @@ def run(ctx):
                   ("pointwise probe", lambda: probe_pointwise(ctx, rng)),
                   ("history probe", lambda: probe_history(ctx, rng)),
                   ("angle patterns", lambda: corr_angle_patterns(ctx, rng)),
+                  ("single-parameter histories", lambda: probe_single_changes(ctx, rng)),
+                  ("upscaling / point_volumes", lambda: probe_upscaling(ctx, rng)),
                   ("entry points (unstructured / mesh)", lambda: probe_entry_points(ctx, rng)),
                   ("mean / trend options", lambda: probe_mean_trend(ctx, rng)),
                   ("size classes", lambda: probe_sizes(ctx, rng, drv)),
